@@ -120,7 +120,20 @@ class NoArgs(Exception):
         super().__init__()
 
 
-FAULTS = {"ValueError": ValueError, "KeyError": KeyError, "TypeError": TypeError, "Injected": Injected, "NoArgs": NoArgs}
+def NestedSchemaError(_msg):
+    """what a check that validates nested / derived data with another schema raises: a fully populated pandera SchemaError"""
+    import pandas as pd
+    import pandera as pa
+
+    try:
+        pa.SeriesSchema(int, pa.Check.gt(10**6), name="nested").validate(pd.Series([1, 2]))
+    except pa.errors.SchemaError as e:
+        return e
+    raise AssertionError("nested validation did not fail")
+
+
+FAULTS = {"ValueError": ValueError, "KeyError": KeyError, "TypeError": TypeError, "Injected": Injected, "NoArgs": NoArgs,
+          "NestedSchemaError": NestedSchemaError}
 
 
 class Ticker:
@@ -327,6 +340,11 @@ def _judge(hname, lazy, r, base_outcome):
                 where = O.pandera_frame_of(r["exc"]) if r["exc"] is not None else "-"
                 viol.append(("check_fault_reported_as_failed_check", f"{first}:{r['outcome']}:{type(r['exc']).__name__}@{where}",
                              f"{tag} faults={names} outcome={r['outcome']} exc={r['exc']!r}"))
+            elif any(type(e).__name__ == "SchemaError" for e in inj_objs):
+                # a pandera SchemaError coming out of a check may be reported under the reason of a failed check of either kind
+                if not set(r["reasons"]) & {"CHECK_ERROR", "DATAFRAME_CHECK"} and not (r["outcome"] == "SchemaError" and any(r["exc"] is e for e in inj_objs)):
+                    viol.append(("check_fault_reported_as_failed_check", f"{first}:nested_schema_error:reasons={sorted(set(r['reasons']))}",
+                                 f"{tag} faults={names} reasons={r['reasons']}"))
             elif "CHECK_ERROR" not in r["reasons"] and r["outcome"] == "SchemaErrors":
                 viol.append(("check_fault_reported_as_failed_check", f"{first}:no_CHECK_ERROR_in_lazy_report",
                              f"{tag} faults={names} reasons={r['reasons']}"))
